@@ -408,6 +408,15 @@ def corpus_io(name, p):
             if not p.get('adder'):
                 py4hw.Constant(t, 'zero', 0, o[6])
         return [32, 32], [1, 1, 1, 1, 1, 1, 32], b3
+    if name == 'FPBlock':
+        which = p['which']
+        if which == 'FPtoInt_SP':
+            return [32], [32, 1, 1, 1], lambda t, i, o: py4hw.FPtoInt_SP(t, 'dut', i[0], o[0], o[1], o[2], o[3])
+        if which == 'InttoFP_SP':
+            return [32], [32, 1], lambda t, i, o: py4hw.InttoFP_SP(t, 'dut', i[0], o[0], o[1])
+        if which == 'FPMult_SP':
+            return [32, 32], [32], lambda t, i, o: py4hw.FPMult_SP(t, 'dut', i[0], i[1], o[0])
+        return [32, 32], [32], lambda t, i, o: py4hw.FPAdder_SP(t, 'dut', i[0], i[1], o[0])
     raise HarnessError(name)
 
 
@@ -440,7 +449,15 @@ def corpus_cases(max_len):
     from .c13 import pair_strategy
     fpc = st.tuples(st.lists(pair_strategy(40).map(list), min_size=1, max_size=4), st.permutations([0, 1, 2]), st.booleans()).map(
         lambda t: {'kind': 'corpus', 'name': 'FPCompare', 'p': {'order': list(t[1]), 'adder': t[2]}, 'inputs': t[0]})
-    return st.one_of(msg, amem, axi, axi, msg2, fpc)
+    from .c13 import _ints, _floats_for_int
+    fpb = st.one_of(
+        st.lists(_floats_for_int().map(lambda c: [c['a']]), min_size=1, max_size=4).map(
+            lambda h: {'kind': 'corpus', 'name': 'FPBlock', 'p': {'which': 'FPtoInt_SP'}, 'inputs': h}),
+        st.lists(_ints().map(lambda c: [c['a']]), min_size=1, max_size=4).map(
+            lambda h: {'kind': 'corpus', 'name': 'FPBlock', 'p': {'which': 'InttoFP_SP'}, 'inputs': h}),
+        st.tuples(st.sampled_from(['FPMult_SP', 'FPAdder_SP']), st.lists(pair_strategy(40).map(list), min_size=1, max_size=4)).map(
+            lambda t: {'kind': 'corpus', 'name': 'FPBlock', 'p': {'which': t[0]}, 'inputs': t[1]}))
+    return st.one_of(msg, amem, axi, axi, msg2, fpc, fpb)
 
 
 def run_case(case):
